@@ -193,6 +193,33 @@ _CMPOPS = {
 NOOP_CALLS = {"print", "warn", "tqdm"}
 
 
+
+_SIMPLE_ACCESSOR = {}
+
+
+def _is_simple_accessor(f):
+    """Is the source of `f` a docstring followed by a single `return <expression>` (no generator, no decorator other than
+    @property / @staticmethod / @classmethod)?"""
+    key = getattr(f, "__code__", None)
+    if key is None:
+        return False
+    if key in _SIMPLE_ACCESSOR:
+        return _SIMPLE_ACCESSOR[key]
+    ok = False
+    try:
+        node = func_ast(f)[0]
+        body = list(node.body)
+        if body and isinstance(body[0], ast.Expr) and isinstance(getattr(body[0], "value", None), ast.Constant) and isinstance(body[0].value.value, str):
+            body = body[1:]
+        decos = [d.id if isinstance(d, ast.Name) else getattr(d, "attr", None) for d in node.decorator_list]
+        ok = (len(body) == 1 and isinstance(body[0], ast.Return) and body[0].value is not None
+              and not any(isinstance(n, (ast.Yield, ast.YieldFrom, ast.Await, ast.Lambda)) for n in ast.walk(body[0]))
+              and all(d in ("property", "staticmethod", "classmethod", "getter") for d in decos))
+    except Exception:
+        ok = False
+    _SIMPLE_ACCESSOR[key] = ok
+    return ok
+
 class Interp:
     def __init__(self, ctx, registry):
         self.ctx = ctx
@@ -1555,6 +1582,12 @@ class Interp:
                 self.ctx.ghost.setdefault("inlined", set()).add(qn)
                 return self.call_closure(self.closure_of(f), args, kwargs)
             return self.native(f, *args, **kwargs)
+        if _is_simple_accessor(f):
+            # a body that is just `return <expr>` (typically a property getter) is interpreted in place: inlining is always sound
+            # (it is the real code); the permission list is proof engineering, and a harmless edit that starts using such an
+            # accessor must not make the contract undecidable
+            self.ctx.ghost.setdefault("inlined", set()).add(qn)
+            return self.call_closure(self.closure_of(f), args, kwargs)
         raise OutOfSubset(f"call to {qn} has neither contract nor inline permission")
 
     def under_verification_top(self):
